@@ -174,6 +174,9 @@ def run_one(seed, idx, tier):
         for k in ("pre", "post", "glitch"):
             agg[k] += stats.get("offsets", {}).get(k, 0)
         trans = max(trans, stats.get("seen_trans", 0))
+        if status == "legality":
+            res.update(status="skipped", reason="illegal-vhdl:" + str(detail.get("rule")), agg=agg)
+            return res
         if status != "ok":
             res.update(
                 status="violation" if status not in ("unsupported",) else "harness",
@@ -244,6 +247,7 @@ def evidence(results, tier):
         "samples": [sample] if sample else [{"note": "no accepted design with >= 6 nodes in this run"}],
         "accepted": len(ok),
         "rejected_not_explored": len(rej),
+        "illegal_vhdl_not_explored(see C06)": len([r for r in results if r["status"] == "skipped"]),
         "rejection_reasons": rej_reasons,
         "simulated_clocks": agg.get("clocks", 0),
         "delta_cycles": agg.get("deltas", 0),
